@@ -31,7 +31,8 @@ class C06(Prop):
                   "reference machine (same trace, same return values and listings, each hash band of the single map = the shard); at quiescence "
                   "visit/handles return exactly the live entries once, delete returns true iff present and removes exactly that class, a retain call "
                   "leaves exactly the matching entries and a clear call nothing (machine-level, the call run alone); the model's run of every case "
-                  "passes spec_ok (C06_spec_ok_on_model) and spec_ok means agreement with the single-map replay (C06_spec_ok_sound). Tied to /repo by "
+                  "whose keys carry one hash per class passes spec_ok (C06_spec_ok_on_model) and spec_ok = true implies agreement with the single-map replay "
+                  "(C06_spec_ok_sound; the converse is not stated). Tied to /repo by "
                   "replaying histories and schedules on the real code plus a free-running stress engine.")
     level_note = ("SC interleaving at lock granularity: RwLock and hashbrown are trusted to give mutual exclusion / map semantics (a shard is an "
                   "association list searched by (hash, ==)). retain/clear/visit are modelled as the code is: one shard lock after the other, so "
